@@ -843,7 +843,9 @@ func cliSearch(cf *lib.CaseFile, rng *lib.Rng, f lib.Flags) {
 	// table valued function arguments from the expression grammar: every interval argument of every TVF with computed
 	// intervals that are zero, negative, or ordinary (a check that only looks at literals misses the computed ones)
 	intervals := []string{"INTERVAL 1 SECOND - INTERVAL 1 SECOND", "INTERVAL 5 SECONDS * 0", "0 * INTERVAL 1 HOUR", "INTERVAL 1 SECOND - INTERVAL 2 SECONDS",
-		"INTERVAL 1 SECOND * -1", "INTERVAL 0 SECONDS", "INTERVAL 3 SECONDS / 2", "INTERVAL 1 SECOND / 2000000000", "INTERVAL 2 SECONDS", "INTERVAL 1 SECOND + INTERVAL 1 MINUTE"}
+		"INTERVAL 1 SECOND * -1", "INTERVAL 0 SECONDS", "INTERVAL 3 SECONDS / 2", "INTERVAL 1 SECOND / 2000000000", "INTERVAL 2 SECONDS", "INTERVAL 1 SECOND + INTERVAL 1 MINUTE",
+		// every unit and sub-unit magnitudes: below one second, one nanosecond-ish, mixed, large
+		"INTERVAL 500 MILLISECONDS", "INTERVAL 1 MILLISECOND", "INTERVAL 1500 MILLISECONDS", "INTERVAL 999 MILLISECONDS", "INTERVAL 1 MINUTE", "INTERVAL 1 HOUR", "INTERVAL 100000 DAYS"}
 	for _, iv := range intervals {
 		for _, q := range []string{
 			"SELECT * FROM max_diff_watermark(source=>TABLE(ev.csv), max_diff=>INTERVAL 5 SECONDS, time_field=>DESCRIPTOR(t), resolution=>" + iv + ") x",
@@ -857,7 +859,10 @@ func cliSearch(cf *lib.CaseFile, rng *lib.Rng, f lib.Flags) {
 	// WHERE / ON conjuncts of every expression shape above every join kind, optimizer on and off
 	conjuncts := []string{"a.b", "NOT a.b", "a.b OR c.i > 1", "a.b AND c.b", "a.i IN (1, 2)", "a.i NOT IN (0)", "a.i IS NULL", "a.s IS NOT NULL", "COALESCE(a.b, true)",
 		"(a.i, 1) = (c.i, 1)", "a.i > c.i", "a.i + 1 = c.i", "int(a.f) = c.i", "a.i = (SELECT r.i FROM range(start=>0, end=>1) r)", "a.i IN (SELECT r.i FROM range(start=>0, end=>3) r)",
-		"true", "NULL", "a.b = c.b", "a.s LIKE 'a%'", "a.t < now()", "a.b OR (c.b AND a.i = c.i)"}
+		"true", "NULL", "a.b = c.b", "a.s LIKE 'a%'", "a.t < now()", "a.b OR (c.b AND a.i = c.i)",
+		// equalities whose operands use one side, the other side, both sides or neither, in both operand positions
+		"a.i = a.i + c.i", "a.i = c.i + a.i", "a.i + c.i = a.i", "c.i = a.i * c.i", "c.i + a.i = c.i", "a.i + c.i = c.i + a.i", "a.i = a.i", "c.i = c.i + 1", "1 = a.i + c.i", "a.i + c.i = 0", "1 = 1",
+		"a.s = a.s + c.s", "a.f = c.f / a.f"}
 	for _, cj := range conjuncts {
 		for _, jk := range []string{"JOIN", "LEFT JOIN", "RIGHT JOIN", "OUTER JOIN", "LOOKUP JOIN"} {
 			qs := []string{
